@@ -108,39 +108,39 @@ theorem lt_doEnqueue (s : St) (w : Nat) (inp : Inp) (hw : w < s.ws.length) (hi :
     nIdle (doEnqueue s w inp) < nIdle s :=
   lt_setW s w _ hw hi (isIdle_enq _ _)
 
-theorem markDead_eq {c : Cfg} (hc : Plain c) (s : St) (w : Nat) :
+theorem markDead_eq {c : Cfg} (hc : Retrying c) (s : St) (w : Nat) :
     markDead c s w = setW { s with retries := s.retries ++ (getW s w).ppw,
                                    pending := s.pending - (getW s w).ppw.length } w
                           { getW s w with ppw := [], closed := true } := by
   simp [markDead, hc.retry]
 
-theorem le_markDead {c : Cfg} (hc : Plain c) (s : St) (w : Nat) : Le s (markDead c s w) := by
+theorem le_markDead {c : Cfg} (hc : Retrying c) (s : St) (w : Nat) : Le s (markDead c s w) := by
   rw [markDead_eq hc]
   have h0 : Le s { s with retries := s.retries ++ (getW s w).ppw, pending := s.pending - (getW s w).ppw.length } :=
     Le.of_eq rfl (fun h => h)
   refine Le.trans h0 (le_setW _ w _ ?_)
   intro h; rw [isIdle_dead] at h; cases h
 
-theorem cn_markDead {c : Cfg} (hc : Plain c) (s : St) (w : Nat) (hw : w < s.ws.length) : CN (markDead c s w) w := by
+theorem cn_markDead {c : Cfg} (hc : Retrying c) (s : St) (w : Nat) (hw : w < s.ws.length) : CN (markDead c s w) w := by
   rw [markDead_eq hc]
   show isIdle (getW (setW _ w _) w) = false
   rw [getW_setW_same _ w _ (by exact hw)]; exact isIdle_dead _
 
-theorem lt_markDead {c : Cfg} (hc : Plain c) (s : St) (w : Nat) (hw : w < s.ws.length) (hi : isIdle (getW s w) = true) :
+theorem lt_markDead {c : Cfg} (hc : Retrying c) (s : St) (w : Nat) (hw : w < s.ws.length) (hi : isIdle (getW s w) = true) :
     nIdle (markDead c s w) < nIdle s := by
   rw [markDead_eq hc]
   exact lt_setW { s with retries := s.retries ++ (getW s w).ppw, pending := s.pending - (getW s w).ppw.length } w _ hw hi (isIdle_dead _)
 
 theorem le_unused (c : Cfg) (s : St) (inp : Inp) (fr : Bool) : Le s (unused c s inp fr) := by
-  unfold unused
+  unfold unused putBack
   split
   · exact Le.refl s
   · split <;> exact Le.of_eq rfl (fun h => h)
 
 theorem unused_err (c : Cfg) (s : St) (inp : Inp) (fr : Bool) : (unused c s inp fr).err = s.err := by
-  unfold unused; split; rfl; split <;> rfl
+  unfold unused putBack; split; rfl; split <;> rfl
 
-theorem markDead_err {c : Cfg} (hc : Plain c) (s : St) (w : Nat) : (markDead c s w).err = s.err := by
+theorem markDead_err {c : Cfg} (hc : Retrying c) (s : St) (w : Nat) : (markDead c s w).err = s.err := by
   rw [markDead_eq hc]; rfl
 
 theorem doEnqueue_err (s : St) (w : Nat) (inp : Inp) : (doEnqueue s w inp).err = s.err := rfl
@@ -171,12 +171,24 @@ theorem mem_idle_isIdle {s : St} {w : Nat} (h : w ∈ idle s) : w < s.ws.length 
 
 /-! ### the re-dispatch loop terminates and leaves no work waiting for an idle worker -/
 
-theorem le_settle {c : Cfg} (hc : Plain c) {pick : List Nat → Option Nat} (hp : PickOK pick) :
-    ∀ (fuel : Nat) (s : St), Le s (settle c pick fuel s) := by
+/-- without refusals the workers skipped by a round are never idle ones, so skipping changes nothing -/
+theorem avail_eq_idle {s : St} {skip : List Nat} (h : ∀ w ∈ skip, CN s w) : avail s skip = idle s := by
+  unfold avail
+  apply List.filter_eq_self.mpr
+  intro w hw
+  obtain ⟨_, hi⟩ := mem_idle_isIdle hw
+  cases hc : skip.contains w with
+  | false => rfl
+  | true =>
+    have := h w (by simpa using hc)
+    rw [CN, hi] at this; cases this
+
+theorem le_settle {c : Cfg} (hc : Retrying c) {pick : List Nat → Option Nat} :
+    ∀ (fuel : Nat) (skip : List Nat) (s : St), Le s (settle c pick fuel skip s) := by
   intro fuel
   induction fuel with
   | zero =>
-    intro s
+    intro skip s
     simp only [settle]
     split
     · exact Le.refl s
@@ -184,39 +196,43 @@ theorem le_settle {c : Cfg} (hc : Plain c) {pick : List Nat → Option Nat} (hp 
       · exact Le.refl s
       · exact Le.of_eq rfl (fun h => h)
   | succ fuel ih =>
-    intro s
-    simp only [settle, giveUp_eq hc.toRetrying]
+    intro skip s
+    simp only [settle, giveUp_eq hc]
     cases hr : s.retries with
     | nil => exact Le.refl s
     | cons inp rest =>
       simp only
-      cases hpk : pick (idle s) with
+      cases hpk : pick (avail s skip) with
       | none => exact Le.refl s
       | some w =>
-        simp only [hc.noFn, Bool.false_eq_true, if_false]
+        simp only
         have h0 : Le s { s with retries := rest } := Le.of_eq rfl (fun h => h)
+        refine Le.trans ?_ (ih _ _)
         split
-        · exact Le.trans h0 (Le.trans (le_doEnqueue _ w inp) (ih _))
-        · exact Le.trans h0 (Le.trans (le_markDead hc _ w) (Le.trans (ih _) (Le.trans (le_unused c _ inp true) (ih _))))
+        · exact Le.of_eq rfl (fun h => h)
+        · split
+          · exact Le.trans h0 (le_doEnqueue _ w inp)
+          · exact Le.trans h0 (Le.trans (le_markDead hc _ w) (Le.trans (ih _ _) (le_unused c _ inp true)))
 
 theorem settle_post {c : Cfg} (hc : Plain c) {pick : List Nat → Option Nat} (hp : PickOK pick) (ht : PickTotal pick) :
-    ∀ (fuel : Nat) (s : St), nIdle s ≤ fuel →
-      ((settle c pick fuel s).retries = [] ∨ NoIdle (settle c pick fuel s)) ∧ (settle c pick fuel s).err = s.err := by
+    ∀ (fuel : Nat) (skip : List Nat) (s : St), (∀ w ∈ skip, CN s w) → nIdle s ≤ fuel →
+      ((settle c pick fuel skip s).retries = [] ∨ NoIdle (settle c pick fuel skip s)) ∧
+      (settle c pick fuel skip s).err = s.err := by
   intro fuel
   induction fuel with
   | zero =>
-    intro s hn
+    intro skip s hsk hn
     have hz : nIdle s = 0 := by omega
     have hid : idle s = [] := (idle_nil_iff s).mpr hz
-    simp only [settle]
+    simp only [settle, avail_eq_idle hsk]
     split
     · exact ⟨Or.inr (noIdle_of_nIdle s hz), rfl⟩
     · cases hpk : pick (idle s) with
       | none => exact ⟨Or.inr (noIdle_of_nIdle s hz), rfl⟩
       | some w => have := hp _ _ hpk; rw [hid] at this; cases this
   | succ fuel ih =>
-    intro s hn
-    simp only [settle, giveUp_eq hc.toRetrying]
+    intro skip s hsk hn
+    simp only [settle, giveUp_eq hc.toRetrying, avail_eq_idle hsk]
     cases hr : s.retries with
     | nil => exact ⟨Or.inl hr, rfl⟩
     | cons inp rest =>
@@ -230,36 +246,70 @@ theorem settle_post {c : Cfg} (hc : Plain c) {pick : List Nat → Option Nat} (h
         obtain ⟨hw, hi⟩ := mem_idle_isIdle (hp _ _ hpk)
         have hg : getW { s with retries := rest } w = getW s w := rfl
         have hn' : nIdle { s with retries := rest } = nIdle s := rfl
+        have h0 : Le s { s with retries := rest } := Le.of_eq rfl (fun h => h)
         split
-        · have hlt := lt_doEnqueue { s with retries := rest } w inp hw (by rw [hg]; exact hi)
-          obtain ⟨h1, e1⟩ := ih (doEnqueue { s with retries := rest } w inp) (by omega)
+        · -- the idle worker took the input
+          have hlt := lt_doEnqueue { s with retries := rest } w inp hw (by rw [hg]; exact hi)
+          have hle := Le.trans h0 (le_doEnqueue { s with retries := rest } w inp)
+          have hcw := cn_doEnqueue { s with retries := rest } w inp hw
+          obtain ⟨h1, e1⟩ := ih (if (inp :: rest).length ≤ (doEnqueue { s with retries := rest } w inp).retries.length then w :: skip else skip)
+            (doEnqueue { s with retries := rest } w inp)
+            (by
+              intro j hj
+              split at hj
+              · simp only [List.mem_cons] at hj
+                rcases hj with rfl | hj
+                · exact hcw
+                · exact hle.cn j (hsk j hj)
+              · exact hle.cn j (hsk j hj))
+            (by omega)
           exact ⟨h1, by rw [e1]; rfl⟩
-        · have hlt := lt_markDead hc { s with retries := rest } w hw (by rw [hg]; exact hi)
-          obtain ⟨_, e1⟩ := ih (markDead c { s with retries := rest } w) (by omega)
-          have hle := (le_settle hc hp fuel (markDead c { s with retries := rest } w)).n
-          have hle2 := (le_unused c (settle c pick fuel (markDead c { s with retries := rest } w)) inp true).n
-          obtain ⟨h2, e2⟩ := ih (unused c (settle c pick fuel (markDead c { s with retries := rest } w)) inp true) (by omega)
+        · -- the idle worker turned out to be dead
+          have hlt := lt_markDead hc.toRetrying { s with retries := rest } w hw (by rw [hg]; exact hi)
+          have hcw0 := cn_markDead hc.toRetrying { s with retries := rest } w hw
+          obtain ⟨_, e1⟩ := ih [] (markDead c { s with retries := rest } w) (by intro j hj; cases hj) (by omega)
+          have hles := le_settle hc.toRetrying (pick := pick) fuel [] (markDead c { s with retries := rest } w)
+          have hle2 := le_unused c (settle c pick fuel [] (markDead c { s with retries := rest } w)) inp true
+          have hle := Le.trans h0 (Le.trans (le_markDead hc.toRetrying { s with retries := rest } w) (Le.trans hles hle2))
+          have hcw := hle2.cn w (hles.cn w hcw0)
+          obtain ⟨h2, e2⟩ := ih
+            (if (inp :: rest).length ≤ (unused c (settle c pick fuel [] (markDead c { s with retries := rest } w)) inp true).retries.length
+              then w :: skip else skip)
+            (unused c (settle c pick fuel [] (markDead c { s with retries := rest } w)) inp true)
+            (by
+              intro j hj
+              split at hj
+              · simp only [List.mem_cons] at hj
+                rcases hj with rfl | hj
+                · exact hcw
+                · exact hle.cn j (hsk j hj)
+              · exact hle.cn j (hsk j hj))
+            (by have := hles.n; have := hle2.n; omega)
           refine ⟨h2, ?_⟩
-          rw [e2, unused_err, e1, markDead_err hc]
+          rw [e2, unused_err, e1, markDead_err hc.toRetrying]
 
 theorem nIdle_le_length (s : St) : nIdle s ≤ s.ws.length := List.countP_le_length
 
-theorem le_handleDeath {c : Cfg} (hc : Plain c) {pick : List Nat → Option Nat} (hp : PickOK pick) (s : St) (w : Nat) :
+theorem le_handleDeath {c : Cfg} (hc : Retrying c) {pick : List Nat → Option Nat} (s : St) (w : Nat) :
     Le s (handleDeath c pick s w) :=
-  Le.trans (le_markDead hc s w) (le_settle hc hp _ _)
+  Le.trans (le_markDead hc s w) (le_settle hc _ _ _)
 
 theorem handleDeath_post {c : Cfg} (hc : Plain c) {pick : List Nat → Option Nat} (hp : PickOK pick) (ht : PickTotal pick)
     (s : St) (w : Nat) :
     ((handleDeath c pick s w).retries = [] ∨ NoIdle (handleDeath c pick s w)) ∧ (handleDeath c pick s w).err = s.err := by
   unfold handleDeath
-  have hl := (le_markDead hc s w).len
-  obtain ⟨h1, e1⟩ := settle_post hc hp ht (s.ws.length + 1) (markDead c s w)
-    (by have := nIdle_le_length (markDead c s w); omega)
-  exact ⟨h1, by rw [e1, markDead_err hc]⟩
+  have hl := (le_markDead hc.toRetrying s w).len
+  obtain ⟨h1, e1⟩ := settle_post hc hp ht ((s.ws.length + 1) * (s.ws.length + 1)) [] (markDead c s w)
+    (by intro j hj; cases hj)
+    (by
+      have := nIdle_le_length (markDead c s w)
+      have : s.ws.length + 1 ≤ (s.ws.length + 1) * (s.ws.length + 1) := Nat.le_mul_of_pos_left _ (by omega)
+      omega)
+  exact ⟨h1, by rw [e1, markDead_err hc.toRetrying]⟩
 
-theorem cn_handleDeath {c : Cfg} (hc : Plain c) {pick : List Nat → Option Nat} (hp : PickOK pick) (s : St) (w : Nat)
+theorem cn_handleDeath {c : Cfg} (hc : Retrying c) {pick : List Nat → Option Nat} (s : St) (w : Nat)
     (hw : w < s.ws.length) : CN (handleDeath c pick s w) w :=
-  (le_settle hc hp _ _).cn w (cn_markDead hc s w hw)
+  (le_settle hc _ _ _).cn w (cn_markDead hc s w hw)
 
 /-! ### try_enqueue -/
 
@@ -310,7 +360,7 @@ theorem tryEnqueue_facts {c : Cfg} (hc : Plain c) {pick : List Nat → Option Na
     ((tryEnqueue c pick s w).2 = false → Quiet (tryEnqueue c pick s w).1) ∧
     ((tryEnqueue c pick s w).2 = true → CN (tryEnqueue c pick s w).1 w ∧ ¬ Quiet s) := by
   unfold tryEnqueue
-  simp only [giveUp_eq hc.toRetrying]
+  simp only [giveUp_eq hc.toRetrying, putBack_eq hc.toRetrying]
   generalize hg : nextInputs s = r
   obtain ⟨o, s'⟩ := r
   cases o with
@@ -332,13 +382,13 @@ theorem tryEnqueue_facts {c : Cfg} (hc : Plain c) {pick : List Nat → Option Na
       · simp only [ha, if_true]
         exact ⟨Le.trans hle (le_doEnqueue _ _ _), (fun h => by cases h), fun _ => ⟨cn_doEnqueue _ _ _ hw', hnq⟩⟩
       · simp only [ha, Bool.false_eq_true, if_false]
-        refine ⟨Le.trans hle (Le.trans (le_handleDeath hc hp _ _) (le_unused c _ _ _)), (fun h => by cases h), fun _ => ⟨?_, hnq⟩⟩
-        exact (le_unused c _ inp fr).cn w (cn_handleDeath hc hp s' w hw')
+        refine ⟨Le.trans hle (Le.trans (le_handleDeath hc.toRetrying _ _) (le_unused c _ _ _)), (fun h => by cases h), fun _ => ⟨?_, hnq⟩⟩
+        exact (le_unused c _ inp fr).cn w (cn_handleDeath hc.toRetrying s' w hw')
 
 theorem tryEnqueue_err {c : Cfg} (hc : Plain c) {pick : List Nat → Option Nat} (hp : PickOK pick) (ht : PickTotal pick)
     (s : St) (w : Nat) : (tryEnqueue c pick s w).1.err = s.err := by
   unfold tryEnqueue
-  simp only [giveUp_eq hc.toRetrying]
+  simp only [giveUp_eq hc.toRetrying, putBack_eq hc.toRetrying]
   generalize hg : nextInputs s = r
   obtain ⟨o, s'⟩ := r
   have hs' : s'.err = s.err := by
@@ -378,7 +428,7 @@ theorem K_tryEnqueue {c : Cfg} (hc : Plain c) {pick : List Nat → Option Nat} (
 
 theorem K_handleDeath {c : Cfg} (hc : Plain c) {pick : List Nat → Option Nat} (hp : PickOK pick) (ht : PickTotal pick)
     (s : St) (w : Nat) (h : K s) : K (handleDeath c pick s w) := by
-  have hle := le_handleDeath hc hp s w
+  have hle := le_handleDeath hc.toRetrying (pick := pick) s w
   rcases h with h | h
   · left
     intro j hj
